@@ -12,6 +12,7 @@
  */
 
 #include <errno.h>
+#include <limits.h>
 #include <stdlib.h>
 #include <stdio.h>
 #include <string.h>
@@ -80,11 +81,15 @@ int rf_wavheader_decode(const uint8_t *p, unsigned int sz, rf_wavheader_t *wh)
 	if (0 != memcmp(wave, wh->format, 4))
 		return -EINVAL;
 
-	/* if we have tried to read past the end of the buffer then
-	 * rf_pack_remaining() will return a -ve number and therefore
-	 * the return value will be larger than the value supplied.
+	/* if we have tried to read past the end of the buffer then the
+	 * distance covered by the cursor, and therefore the return value,
+	 * will be larger than the value supplied. A hostile fmt chunk size
+	 * can push the cursor further than an int can describe; that must
+	 * not wrap round into a small "success" value.
 	 */
-	return sz - rf_pack_remaining(&pack);
+	if (pack.p - pack.basep > INT_MAX)
+		return -EINVAL;
+	return pack.p - pack.basep;
 }
 
 int rf_wavheader_encode(rf_wavheader_t *wh, uint8_t *p, unsigned int sz)
